@@ -265,7 +265,7 @@ func (p *specParser) expr(minPrec int) SpecExpr {
 
 func (p *specParser) unary() SpecExpr {
 	t := p.peek()
-	if t.kind == "op" && (t.text == "!" || t.text == "-" || t.text == "^") {
+	if t.kind == "op" && (t.text == "!" || t.text == "-" || t.text == "^" || t.text == "&") {
 		p.next()
 		return &SUnary{Op: t.text, X: p.unary()}
 	}
@@ -492,6 +492,7 @@ type ContractSet struct {
 	Lemmas  []*Lemma
 	Order   []string
 	TypeInvs map[string]*Clause // pkgpath::TypeName -> invariant over `self`
+	Ghosts   map[string]*GhostDef
 	Sweeps  []*Sweep
 }
 
@@ -513,6 +514,7 @@ type Lemma struct {
 	Pkg   string
 	Uses  []string // axioms by name (empty => all)
 	Expect string  // "unsat" (default) or "sat" for known-failing lemmas
+	RawFile string // lemma given as an SMT-LIB file
 }
 
 var labelRe = regexp.MustCompile(`^\[([^\]]*)\]\s*`)
@@ -538,7 +540,12 @@ func parseLabel(s string) (props []string, label string, rest string) {
 
 var clauseKeywords = map[string]bool{"func": true, "external": true, "requires": true, "ensures": true, "loop": true,
 	"modifies": true, "pure": true, "mode": true, "safety": true, "assert": true, "panics": true, "specfn": true,
-	"axiom": true, "lemma": true, "inline": true, "option": true, "unroll": true, "typeinv": true, "sweep": true, "uses-global": true, "let": true}
+	"axiom": true, "lemma": true, "inline": true, "option": true, "unroll": true, "typeinv": true, "sweep": true, "uses-global": true, "let": true, "ghost": true}
+
+// GhostDef: a verifier-only field. `name(x)` in specifications reads it; `modifies name(x)` lets a contract change it.
+type GhostDef struct {
+	Name, ObjType, ResType, Pkg string
+}
 
 type LetDef struct {
 	Name string
@@ -713,6 +720,12 @@ func loadContractFile(cs *ContractSet, path, pkgPath string) error {
 				return fail(err)
 			}
 			cs.Axioms = append(cs.Axioms, &Axiom{Name: label, Expr: e, Text: r})
+		case "ghost":
+			// ghost name *T R : a verifier-only field `name` of type R on every object of type T
+			if len(fs) != 4 {
+				return fail(fmt.Errorf("ghost needs: name *ObjectType ResultType"))
+			}
+			cs.Ghosts[fs[1]] = &GhostDef{Name: fs[1], ObjType: fs[2], ResType: fs[3], Pkg: pkgPath}
 		case "typeinv":
 			// typeinv TypeName E
 			if len(fs) < 3 {
@@ -751,6 +764,12 @@ func loadContractFile(cs *ContractSet, path, pkgPath string) error {
 			if strings.HasPrefix(r, "expect-sat ") {
 				lm.Expect = "sat"
 				r = strings.TrimPrefix(r, "expect-sat ")
+			}
+			if strings.HasPrefix(r, "smtfile ") {
+				// a lemma stated directly in SMT-LIB (e.g. in the theory of strings): the file's query must be unsat
+				lm.RawFile = filepath.Join(filepath.Dir(path), strings.TrimSpace(strings.TrimPrefix(r, "smtfile ")))
+				cs.Lemmas = append(cs.Lemmas, lm)
+				continue
 			}
 			e, err := parseSpec(r)
 			if err != nil {
@@ -806,5 +825,5 @@ func parseSpecFn(s string) (*SpecFn, error) {
 }
 
 func newContractSet() *ContractSet {
-	return &ContractSet{Funcs: map[string]*Contract{}, SpecFns: map[string]*SpecFn{}, TypeInvs: map[string]*Clause{}}
+	return &ContractSet{Funcs: map[string]*Contract{}, SpecFns: map[string]*SpecFn{}, TypeInvs: map[string]*Clause{}, Ghosts: map[string]*GhostDef{}}
 }
